@@ -662,12 +662,17 @@ func genIterShapes(repo string, w func(string, ...any)) {
 	w("\n].\n")
 }
 
+// inSwitchDepth > 0: the statement being classified sits inside a switch/select case
+// (since the innermost enclosing for): an unlabelled break there leaves the switch, not
+// the loop, so it is not an exit.
+var inSwitchDepth int
+
 func isExit(s ast.Stmt) bool {
 	switch s := s.(type) {
 	case *ast.ReturnStmt:
 		return true
 	case *ast.BranchStmt:
-		return s.Tok == token.BREAK
+		return s.Tok == token.BREAK && (inSwitchDepth == 0 || s.Label != nil)
 	}
 	return false
 }
@@ -741,15 +746,35 @@ func classifyYields(cb string, body *ast.BlockStmt) []int {
 				}
 			}
 		case *ast.ForStmt:
+			saved := inSwitchDepth
+			inSwitchDepth = 0
 			walkBlock(s.Body.List, false)
+			inSwitchDepth = saved
 		case *ast.RangeStmt:
+			saved := inSwitchDepth
+			inSwitchDepth = 0
 			walkBlock(s.Body.List, false)
+			inSwitchDepth = saved
 		case *ast.BlockStmt:
 			walkBlock(s.List, last)
 		case *ast.SwitchStmt:
+			inSwitchDepth++
 			for _, cc := range s.Body.List {
 				walkBlock(cc.(*ast.CaseClause).Body, false)
 			}
+			inSwitchDepth--
+		case *ast.TypeSwitchStmt:
+			inSwitchDepth++
+			for _, cc := range s.Body.List {
+				walkBlock(cc.(*ast.CaseClause).Body, false)
+			}
+			inSwitchDepth--
+		case *ast.SelectStmt:
+			inSwitchDepth++
+			for _, cc := range s.Body.List {
+				walkBlock(cc.(*ast.CommClause).Body, false)
+			}
+			inSwitchDepth--
 		case *ast.LabeledStmt:
 			walkStmt(s.Stmt, next, last)
 		}
